@@ -475,9 +475,9 @@ Definition obs_matches (o : outcome) (x : obs) : bool :=
   | _, _ => false
   end.
 
-Definition mk_rt (own : list (N * (bool * bool))) (proto : list N) : rt :=
-  mkRt (list_to_map (map (fun '(k, (fn, cfg)) => (k, mkSlot (JOpaque fn) cfg cfg)) own))
-       (list_to_map (map (fun k => (k, JOpaque true)) proto)).
+Definition mk_rt (own : list (N * (jsval * bool))) (proto : list (N * jsval)) : rt :=
+  mkRt (list_to_map (map (fun '(k, (v, cfg)) => (k, mkSlot v cfg cfg)) own))
+       (list_to_map proto).
 
 (* is l a duplicate-free enumeration of exactly the keys of m ? *)
 Fixpoint nodup_b (l : list N) : bool :=
@@ -489,8 +489,8 @@ Definition enumerates (l : list N) (m : gmap N jsval) : bool :=
   nodup_b l && Nat.eqb (length l) (size m) && forallb (fun k => bool_decide (is_Some (m !! k))) l.
 
 Record jcase := mkJCase {
-  jc_own : list (N * (bool * bool));       (* fresh global object: name, (is function, configurable) *)
-  jc_proto : list N;                       (* names inherited from Object.prototype *)
+  jc_own : list (N * (jsval * bool));      (* fresh global object: name, (value, configurable) *)
+  jc_proto : list (N * jsval);             (* what it inherits from Object.prototype *)
   jc_nocache : bool;
   jc_progcap : N;
   jc_nodecap : N;
